@@ -174,7 +174,7 @@ impl Monitor for C10 {
         "schedule = (content, cut set into appends, idle polls, BufReader capacity, start offset); the follow_eof hook performs the next append exactly when the reader saw EOF. Exhaustive small scope: all contents of <= 4 characters (<= 10 bytes) over {a, e-acute, emoji, newline} x all cut sets x capacities {1,2,4,8192}; plus random schedules (lines up to 64 KiB in thorough), real writer threads and the CLI in thorough. Non-trivial = >= 2 expected lines and >= 1 EOF retry that carried a partial line over; distinct by schedule hash"
     }
     fn assumptions(&self) -> Vec<String> { vec!["appends become visible to the reader atomically per write call (tmpfs)".into(), "the reader is driven through the hook, so polls happen exactly at EOF retries; real-thread interleavings only in the thorough tier".into()] }
-    fn sizes(&self, tier: Tier) -> Sizes { match tier { Tier::Quick => Sizes { cases: 12_000, min_nontrivial: 2_000 }, Tier::Thorough => Sizes { cases: 300_000, min_nontrivial: 20_000 } } }
+    fn sizes(&self, tier: Tier) -> Sizes { match tier { Tier::Quick => Sizes { cases: 12_000, min_nontrivial: 2_000 }, Tier::Thorough => Sizes { cases: 40_000, min_nontrivial: 20_000 } } }
     fn exhaustive_note(&self) -> Option<String> { Some("contents of <= 4 characters and <= 10 bytes over {a, U+00E9, U+1F600, LF} x all cut sets x BufReader capacities {1,2,4,8192} (kind=small)".into()) }
 
     fn enumerate(&self, _tier: Tier, emit: &mut dyn FnMut(J)) {
